@@ -87,7 +87,7 @@ CFG = dict(
          "omitted min_periods is compared for every length (the model reproduces the clamp of DESIGN 5.3); tags count rescans, "
          "rescans with a null newcomer and all-null windows per case",
     theorem_hint="Props/C03.v: C03_ts_vmin, C03_ts_vmax, C03_ts_vargmin, C03_ts_vargmax, C03_cached_extreme_invariant, "
-                 "C03_ts_vrank, C03_ts_vzscore, C03_ts_vminmaxnorm_partial",
+                 "C03_ts_vrank, C03_ts_vzscore, C03_ts_vminmaxnorm",
     level_text="Proof (Coq): for EVERY series of length >= 1 over any null dictionary with integer elements, window >= 1, "
                "min_periods, position and both driver bodies the model of cmp.rs returns without panic and ts_vmin / ts_vmax = "
                "least / greatest valid element of the window (null when none), ts_vargmin / ts_vargmax = 1-based offset of the "
@@ -95,9 +95,9 @@ CFG = dict(
                "null-last extreme of the window; before the next step it is either still that of the remaining window or "
                "strictly before the new start = the expiry test) — axiom-free; ts_vrank = #smaller + 1 + #equal/2 over the "
                "valid window without the current element, reversed and pct forms (option R); ts_vzscore = (x-mean)/sample-std, "
-               "null iff x null / masked / population variance <= EPS (option R). Partial: ts_vminmaxnorm — only the closed "
-               "form of the emitted value is proved, the lazily re-searched (max, min) cache is covered by the exhaustive "
-               "small-scope correspondence. The model is tied to the code by ~40k differential cases per quick run.",
+               "null iff x null / masked / population variance <= EPS (option R); ts_vminmaxnorm = (x-min)/(max-min) of the valid "
+               "window, null iff x null / max = min / masked, through the invariant of the lazily re-searched (max, min) cache, "
+               "for elements within the sentinels T::min_()/max_() (option R). Nothing is partial. The model is tied to the code by ~40k differential cases per quick run.",
     level_note="Trusted: Coq kernel (+ stdlib Reals axioms under the rank / z-score theorems only); the hand-written model of "
                "cmp.rs / norm.rs / isnone.rs sort_cmp; floats are outside the theorems (integer carrier for the order kernels; "
                "float runs are compared bit-exactly for min/max/arg/rank and within 1e-9 for the normalisations). The model "
